@@ -830,6 +830,14 @@ func (a *Analysis) SelfDeadlocks() []OrderEdge {
 			}
 		}
 	}
+	writers := map[string]bool{}
+	for _, fn := range a.fns {
+		for k, m := range a.info[fn].acq {
+			if m == ModeW {
+				writers[k] = true
+			}
+		}
+	}
 	var out []OrderEdge
 	for _, fn := range a.fns {
 		for _, s := range a.info[fn].sites {
@@ -841,8 +849,10 @@ func (a *Analysis) SelfDeadlocks() []OrderEdge {
 					continue
 				}
 				if m, ok := acqT[s.callee][h]; ok {
-					// RLock while RLock held is tolerated by sync.RWMutex unless a writer waits; W involvement deadlocks
-					if hm == ModeW || m == ModeW {
+					// W involvement deadlocks at once. RLock while RLock is held deadlocks as soon as a writer
+					// queues between the two (sync.RWMutex blocks new readers behind a waiting writer: "this
+					// prohibits recursive read locking"), so it counts whenever the lock is write-locked anywhere.
+					if hm == ModeW || m == ModeW || writers[h] {
 						out = append(out, OrderEdge{From: h, To: h, Fn: fn, In: s.in, Via: world.FuncName(s.callee)})
 					}
 				}
